@@ -206,6 +206,17 @@ WaitBeforeRespected(D, S, l) ==
      \A a \in Kids(O, t.sid) :
         TimeAt(S, FirstSeen(S, l, IF Has(Rng(O.ax), a.sid) THEN "ax" ELSE "wf", a.sid))
            >= TimeAt(S, FirstSeen(S, l, "tk", t.sid)) + D.tasks[t.name].waitBefore
+\* pause-before: the workflow is PAUSED before the task's action (or sub-workflow) is started, and the action is
+\* started only after somebody resumed the workflow
+PauseBeforeRespected(D, S, l) ==
+  LET O == S[l].obs IN
+  \A t \in Rng(O.tk) : (D.tasks[t.name].pauseBefore /\ ~t.isJoin) =>
+     \A a \in Kids(O, t.sid) :
+        LET born == FirstSeen(S, l, "tk", t.sid)
+            f    == FirstSeen(S, l, IF Has(Rng(O.ax), a.sid) THEN "ax" ELSE "wf", a.sid)
+        IN \E kp \in born..(f - 1) :
+              /\ Has(Rng(S[kp].obs.wf), t.wf) /\ By(Rng(S[kp].obs.wf), t.wf).state = "PAUSED"
+              /\ \E kr \in (kp + 1)..f : S[kr].ev.kind = "op" /\ S[kr].ev.what = "resume"
 \* wait-after: the follow-up tasks are not created before the delay has elapsed - and they are not lost
 WaitAfterRespected(D, S, l) ==
   LET O == S[l].obs IN
